@@ -130,7 +130,6 @@ Proof.
   - destruct Hc as [-> | ->]; vm_compute; apply perm_swap.
   - destruct Hc as [-> | ->]; vm_compute; discriminate.
   - destruct Hc as [-> | ->]; vm_compute; reflexivity.
-  - destruct Hc as [-> | ->]; vm_compute; reflexivity.
 Qed.
 
 Print Assumptions writer_file_wellformed_xml_instance.
